@@ -192,14 +192,14 @@ PROPERTIES = {
              'runtime libraries (libsam.wat, TS prolog) and Vec are not covered',
   },
   'C06': {
-    'verus': ['litgate', 'errgate', 'checkgates', 'visgate'],
+    'verus': ['litgate', 'errgate', 'checkgates', 'visgate', 'ssascope'],
     'kani': [],
     'level': 'proof',
     'scope': 'two kernels only: an integer literal outside the 32-bit range is reported (TokenProducer::process_raw_token); an error '
              'once reported stays in the ErrorSet (report_error, merge), has_errors sees it, and compile_sources returns Err before '
              'any code is produced; two checker gates: a type argument that violates its parameter\'s bound is reported, a failed '
              'assignability test is reported (the tests themselves are opaque); get_method_type hands out a private member only to its '
-             'own class (same module and name) and nothing of a private toplevel of another module; private fields likewise; every other checker-side clause of C06 (arity, '
+             'own class (same module and name) and nothing of a private toplevel of another module; private fields likewise; the variables of an `if let` pattern are in scope in the then-block only (visit_if_else); every other checker-side clause of C06 (arity, '
              'resolution, visibility, conformance, exhaustiveness: that the error IS reported) is not covered',
   },
   'C08': {
@@ -281,6 +281,9 @@ STANDING_ASSUMPTIONS = {
                  'subst_nominal_type) are opaque: only "a failed test is reported" is proved; ErrorSet reduced to its error count'],
   'visgate': ['Verus/Z3; signature lookup (resolve_interface_cx + filter, resolve_function_signature, resolve_method_signature) is opaque; '
               'NominalType / MemberSignature / TypingContext reduced to the fields read (R6); == on names and module references is their PartialEq'],
+  'ssascope': ['Verus/Z3; scopes are abstract; push_scope / pop_scope / visit_matching_pattern / visit_block / visit_expression are stubs '
+               'with their intended effect on the scope stack, and a ghost log records under which stack blocks are analysed; the recursive '
+               'call of visit_if_else goes through a stub with the same contract'],
   'errgate': ['Verus/Z3; vstd specification of std BTreeSet (new / insert / is_empty); the derived Ord of CompileTimeError is assumed to '
               'be a total order (obeys_cmp); BTreeSet::extend = union (R3); Location, ErrorDetail opaque; everything compile_sources does '
               'around the gate is outside the block (R14)'],
